@@ -7,5 +7,6 @@ CONSTANTS
   WithCancel = TRUE
   CheckCancel = TRUE
   Recheck = TRUE
-INVARIANTS SlotImpliesSuspended ResumeOnce NoLostWake TokenHasTaker TimeoutSound CanceledSound
+  Fix6 = TRUE
+INVARIANTS SlotImpliesSuspended ResumeOnce NoLostWake TokenHasTaker TimeoutSound CanceledSound NoLostTimeout
 CHECK_DEADLOCK FALSE
